@@ -6,7 +6,7 @@ from __future__ import annotations
 
 import ast
 
-from ..core import AnalysisError, dotted, norm
+from ..core import AnalysisError, call_name, dotted, norm
 from ..util import assigned_targets, body_list_of, is_attr, names_in, parent_map, str_consts, terminates
 
 EXPLANATION = """
@@ -255,7 +255,20 @@ def _t3(ctx):
                         keeps = True
                     ctx.check(keeps, R, fi, st, f"`{norm(st)}` replaces the marker set: markers of quantities computed by an earlier call are lost, and the next producer in the chain applies its scale factors a second time", "marker added to the existing set")
     ctx.require(n >= 4, R, f"marker updates in the cost producers: {n}")
-    ctx.floor(R, 4)
+    # the write-backs of Spec.calculate_component_costs extend the CURRENT marker set of the component (not a snapshot taken earlier)
+    sp = ctx.func("accelforge/frontend/spec.py", "Spec.calculate_component_costs", R)
+    for st in sp.stmts():
+        for t, v, aug in assigned_targets(st):
+            if isinstance(t, ast.Attribute) and t.attr == "_costs_calculated" and isinstance(v, ast.BinOp) and isinstance(v.op, ast.BitOr):
+                tt = norm(t)
+                ctx.check(tt in (norm(v.left), norm(v.right)), R, sp, st, f"`{norm(st)}` extends a snapshot of the marker set instead of `{tt}` itself: a marker written back earlier in the same call (area) is lost when the next one (leak power) is written, "
+                          "so the next call scales that quantity again", "write-back extends the current marker set")
+    # the modelling copy keeps the private state of actions (their markers): no blanket reset of private attributes
+    cp = ctx.func(COMP_, "Component._copy_for_component_modeling", R)
+    resets = [c for c in cp.calls() if call_name(c) in ("setattr", "__setattr__") and any("get_default" in norm(a) or "default" in norm(a) for a in c.args)]
+    resets += [x for x in cp.walk() if isinstance(x, ast.Attribute) and x.attr == "__private_attributes__"]
+    ctx.check(not resets, R, cp, resets[0] if resets else cp.node, "the modelling copy resets the actions' private attributes to their defaults: the 'already calculated' markers are wiped, so the next call scales energy and throughput again", "modelling copy keeps private state")
+    ctx.floor(R, 5)
 
 
 def check(ctx):
